@@ -215,7 +215,7 @@ theorem keysAreStrings_of_kvs : ∀ (es : SEntries) (kvs : List (String × SVal)
   | .cons k v r, kvs, h => by
     obtain ⟨key, rest, rfl, hr, rfl⟩ := SEntries.kvs_cons_inv h
     rw [keysAreStrings]
-    simp only [keyStr, bind, Except.bind]
+    simp only [specKey_eq, normErr_ok, keyStr, bind, Except.bind]
     exact keysAreStrings_of_kvs r rest hr
 
 theorem SEntries.hasKey_false : ∀ (es : SEntries) (kvs : List (String × SVal)) (name : String),
@@ -269,8 +269,8 @@ theorem interpByKey_cases (ext : Ext) (name : String) (dt : DataType) (nl : Bool
     simp only [SEntries.dupKeys, keyStr_str, Bool.or_eq_false_iff] at hd
     have ih := interpByKey_cases ext name dt nl md r rest hr0 hd.2
       (fun kv hkv => hv kv (List.mem_cons.mpr (.inr hkv)))
-    rw [interpByKey]
-    simp only [keyStr_str]
+    rw [interpByKey, keyOf_eq]
+    simp only [keyOf_eq, keyStr_str]
     by_cases e : key = name
     · subst e
       obtain ⟨lv, hlv⟩ := hv (key, v) (by simp) rfl
